@@ -68,8 +68,13 @@ pub struct ProdPt {
     complex: bool,
     /// 0: default zero tolerance 1e-10; 1: tolerance 4x the rounding-noise bound; 2: as 0 with a leading coefficient of 2^-40 on the left operand
     variant: u8,
+    /// 0: pattern as generated; 1: a's constant term exactly 0; 2: b's constant term exactly 0; 3: both; 4: a stored with an
+    /// exactly-zero leading coefficient appended (one more stored coefficient, same polynomial); 5: b stored that way
+    #[serde(default)]
+    shape: u8,
 }
 pub struct Products;
+const SHAPES: [&str; 6] = ["as-generated", "a(0)=0", "b(0)=0", "a(0)=b(0)=0", "a zero-padded", "b zero-padded"];
 fn degrees(t: Tier) -> Vec<usize> {
     match t {
         Tier::Quick => {
@@ -114,6 +119,23 @@ fn product_point<N: Fld>(p: &ProdPt) -> Outcome {
         eb.re[e] <<= 10;
         eb.im[e] <<= 10;
     }
+    if p.shape == 1 || p.shape == 3 {
+        ea.re[0] = 0;
+        ea.im[0] = 0;
+    }
+    if p.shape == 2 || p.shape == 3 {
+        eb.re[0] = 0;
+        eb.im[0] = 0;
+    }
+    if p.shape == 4 {
+        ea.re.push(0);
+        ea.im.push(0);
+    }
+    if p.shape == 5 {
+        eb.re.push(0);
+        eb.im.push(0);
+    }
+    let padded = p.shape >= 4;
     let (a, b) = (ea.to_c(), eb.to_c());
     let exact = ea.mul(&eb).to_c();
     let (na, nb) = (norm2(&a), norm2(&b));
@@ -130,7 +152,7 @@ fn product_point<N: Fld>(p: &ProdPt) -> Outcome {
         return o;
     }
     pa.set_tolerance(tol).unwrap();
-    let ctx = || format!("deg {} x deg {} patterns {}/{} {} variant {} (path {})", p.m, p.n, PATTERNS[p.pat], PATTERNS[(2 * p.pat + 1) % 6], N::NAME, p.variant, pth);
+    let ctx = || format!("deg {} x deg {} patterns {}/{} {} variant {} shape {} (path {})", p.m, p.n, PATTERNS[p.pat], PATTERNS[(2 * p.pat + 1) % 6], N::NAME, p.variant, SHAPES[p.shape as usize], pth);
     let r = vcore::guard(|| (asc(&(&pa * &pb)), asc(&(&pb * &pa))));
     o.executions = 2;
     match r {
@@ -149,10 +171,12 @@ fn product_point<N: Fld>(p: &ProdPt) -> Outcome {
                 o.viol("polynomial::Mul", "commutative", format!("{}: a*b and b*a differ by {:e}", ctx(), dc));
             }
             let lead = exact.last().unwrap().norm();
-            if tol > noise && lead > 2.0 * tol && ab.len() - 1 != p.m + p.n {
+            // (an operand stored with a zero leading coefficient has no agreed 'degree' in the library's representation:
+            // only the coefficient clauses are judged for shapes 4 and 5)
+            if !padded && tol > noise && lead > 2.0 * tol && ab.len() - 1 != p.m + p.n {
                 o.viol("polynomial::Mul", "degree-is-sum", format!("{}: order {} (tolerance {:e}, noise bound {:e}, exact leading coefficient {:e})", ctx(), ab.len() - 1, tol, noise, lead));
             }
-            if ab.len() - 1 > p.m + p.n && tol > noise {
+            if !padded && ab.len() - 1 > p.m + p.n && tol > noise {
                 o.viol("polynomial::Mul", "degree-is-sum", format!("{}: order {} exceeds the sum of degrees", ctx(), ab.len() - 1));
             }
             // pointwise agreement on the unit circle (cross-checks the exact reference as well)
@@ -167,7 +191,7 @@ fn product_point<N: Fld>(p: &ProdPt) -> Outcome {
                     break;
                 }
             }
-            o.sig = format!("{}|{}|v{}|fft{}|deg-claim:{}", pth, N::NAME, p.variant, if pth == "fft" { log2n(a.len(), b.len()) as u32 } else { 0 }, tol > noise && lead > 2.0 * tol);
+            o.sig = format!("{}|{}|v{}|fft{}|deg-claim:{}|s{}", pth, N::NAME, p.variant, if pth == "fft" { log2n(a.len(), b.len()) as u32 } else { 0 }, !padded && tol > noise && lead > 2.0 * tol, p.shape);
         }
     }
     o
@@ -178,10 +202,10 @@ impl Check for Products {
         "products"
     }
     fn rule(&self) -> String {
-        "every degree pair (m,n) of the tier's degree list x 6 integer coefficient patterns (exact reference by i128 convolution) x {f64, Complex<f64>} x tolerance variant; signature = (code path scalar/linear/fft, field, variant, FFT size, whether the degree claim applied)".into()
+        "every degree pair (m,n) of the tier's degree list x 6 integer coefficient patterns (exact reference by i128 convolution) x {f64, Complex<f64>} x tolerance variant, plus for three patterns the five shapes with exact zeros at the ends of the stored coefficients (constant term of either or both operands exactly 0; either operand stored with an exactly-zero leading coefficient); signature = (code path scalar/linear/fft, field, variant, FFT size, whether the degree claim applied, shape)".into()
     }
     fn axes(&self, t: Tier) -> Value {
-        json!({"degrees": degrees(t), "patterns": PATTERNS, "fields": ["f64", "Complex<f64>"], "variants": ["tol 1e-10", "tol 4x noise bound", "left leading coefficient 2^-40"]})
+        json!({"degrees": degrees(t), "patterns": PATTERNS, "fields": ["f64", "Complex<f64>"], "variants": ["tol 1e-10", "tol 4x noise bound", "left leading coefficient 2^-40", "left leading coefficient below own tolerance"], "shapes": SHAPES})
     }
     fn points(&self, t: Tier) -> Vec<ProdPt> {
         let ds = degrees(t);
@@ -197,7 +221,16 @@ impl Check for Products {
                             if t == Tier::Quick && variant == 1 && pat % 2 == 1 {
                                 continue;
                             }
-                            v.push(ProdPt { m, n, pat, complex, variant });
+                            v.push(ProdPt { m, n, pat, complex, variant, shape: 0 });
+                        }
+                        // exact zeros at either end of the stored coefficients (patterns ones, two-term, mixed-magnitude)
+                        if pat == 0 || pat == 3 || pat == 5 {
+                            for shape in 1..6u8 {
+                                if (shape == 1 || shape == 3) && m == 0 || (shape == 2 || shape == 3) && n == 0 {
+                                    continue;
+                                }
+                                v.push(ProdPt { m, n, pat, complex, variant: 0, shape });
+                            }
                         }
                     }
                 }
@@ -209,7 +242,7 @@ impl Check for Products {
         if p.complex { product_point::<C>(p) } else { product_point::<f64>(p) }
     }
     fn required(&self, _t: Tier) -> Vec<&'static str> {
-        vec!["scalar|f64", "linear|c64", "fft|c64|v0|fft8", "fft|f64|v1|fft7|deg-claim:true", "fft|c64|v2"]
+        vec!["scalar|f64", "linear|c64", "fft|c64|v0|fft8", "fft|f64|v1|fft7|deg-claim:true", "fft|c64|v2", "linear|f64&&|s1", "linear|c64&&|s2", "linear|f64&&|s4", "linear|f64&&|s5", "fft|f64&&|s3"]
     }
 }
 
